@@ -360,7 +360,8 @@ def handleMsg (C : Crypto) (L : Loc) (e : Ep) (typ : Nat) (body raw : Bytes) : R
   if typ = dtlsHtClientHello then handleClientHello C L e body
   else if typ = dtlsHtClientKeyExchange then handleClientKeyExchange C L e body
   else if typ = dtlsHtFinished then
-    (if e.isClient then handleFinishedClient C e body else handleFinishedServer C e body raw)
+    (if e.writeEpoch ≠ 0 then ok e      -- the handshake has completed once: ignored
+     else if e.isClient then handleFinishedClient C e body else handleFinishedServer C e body raw)
   else if typ = dtlsHtHelloVerifyRequest then handleHvr C L e body
   else if typ = dtlsHtServerHello then handleServerHello C e body
   else if typ = dtlsHtCertificate then handleCertificate C e body
@@ -513,13 +514,14 @@ def onDeadline (e : Ep) : Ep :=
   if e.alive && e.conn = .handshaking then { e with conn := .failed, alive := false } else e
 
 /-- the close branch: with keys, one sealed alert whose sequence number comes from `write_seq`
-when Connected (the shared counter) and from the context otherwise; the task ends. -/
+once the handshake has completed (the counter application records use: `write_epoch` was published
+and equals the context's epoch) and from the context otherwise; the task ends. -/
 def onClose (e : Ep) : Ep × List Out :=
   if !e.alive then (e, [])
   else match e.ctx.keys with
     | none => ({ e with alive := false }, [])
     | some _ =>
-      if e.conn = .connected then
+      if e.ctx.epoch > 0 ∧ e.writeEpoch = e.ctx.epoch then
         ({ e with alive := false, writeSeq := e.writeSeq + 1 },
          [.send ⟨dtlsCtAlert, e.ctx.epoch, e.writeSeq, true, [1, 0]⟩])
       else
